@@ -832,6 +832,21 @@ impl<'tcx> Cx<'tcx> {
                             }
                         }
                     }
+                    // small array constants (`const NAMES: [&str; 2] = [..]`): the initialiser's MIR, so that the
+                    // analysis can see the elements instead of an opaque name
+                    if let ty::Array(_, n) = ty.kind() {
+                        let small = n.try_to_target_usize(tcx).map(|v| v <= 16).unwrap_or(false);
+                        if small && matches!(tcx.def_kind(def_id), DefKind::Const { .. }) {
+                            let env = TypingEnv::post_analysis(tcx, def_id);
+                            let body = tcx.mir_for_ctfe(def_id);
+                            o = o.raw("body", self.body_json(body, env));
+                            let mut proms = Vec::new();
+                            for p in tcx.promoted_mir(def_id).iter() {
+                                proms.push(self.body_json(p, env));
+                            }
+                            o = o.raw("promoted", jarr(proms));
+                        }
+                    }
                     consts.push(o.done());
                 }
                 _ => {}
